@@ -195,3 +195,38 @@ package protocol
 //@     invariant len(s.unreadBuf) > 0 ==> isProtoBuf(baseof(s.unreadBuf))
 //@     // C15: whenever a read deadline is in force the wait below is armed with it
 //@     invariant [C15] old(s.readDeadline.v) != 0 ==> timeC != nil
+//@
+//@ func (t *segmentTree) Remaining() (n int)
+//@   trusted ordered container over google/btree, guarded by its own mutex
+//@
+//@ // Insert on the tree identified by ghost rq (the receive queue) appends the
+//@ // segment's sequence number to the ghost log qlog.
+//@ func (t *segmentTree) Insert(seg *segment) (ok bool)
+//@   trusted ordered container over google/btree; the log is ghost state
+//@   requires wfSegMeta(seg)
+//@   modifies ghost(qn), ghost(qlog)
+//@   ensures ok && t == ghost(rq) ==> ghost(qn) == old(ghost(qn)) + 1 && ghost(qlog)[old(ghost(qn))] == seqOf(seg)
+//@   ensures !(ok && t == ghost(rq)) ==> ghost(qn) == old(ghost(qn))
+//@   ensures forall(j, 0, 4611686018427387904, mathint(j) < old(ghost(qn)) ==> ghost(qlog)[mathint(j)] == old(ghost(qlog))[mathint(j)])
+//@
+//@ func (t *segmentTree) DeleteMinIf(si segmentIterator) (seg *segment, deleted bool)
+//@   trusted ordered container over google/btree: removes the minimum iff the predicate accepts it
+//@   ensures seg != nil ==> wfSegMeta(seg)
+//@   ensures deleted ==> seg != nil && apply(si, seg)
+//@
+//@ // In-order, exactly-once hand-over to the application (C13, C02): a segment enters
+//@ // the receive queue only when its sequence number equals nextRecv, and nextRecv
+//@ // then advances by exactly one. So an acknowledgement (which carries nextRecv)
+//@ // never runs ahead of receipt, whatever the network dropped, duplicated or reordered.
+//@ func (s *Session) moveRecvBufToRecvQueue() (err error)
+//@   property C13 C02
+//@   mode int
+//@   requires s != nil && s.recvBuf != nil && s.recvQueue != nil && s.recvBuf != s.recvQueue && ghost(rq) == s.recvQueue && ghost(qn) >= 0
+//@   modifies s.nextRecv, s.remoteWindowSize, ghost(qn), ghost(qlog)
+//@   ensures mathint(s.nextRecv.v) == (mathint(old(s.nextRecv.v)) + ghost(qn) - old(ghost(qn))) % 4294967296
+//@   ensures forall(k, 0, 4611686018427387904, old(ghost(qn)) <= mathint(k) && mathint(k) < ghost(qn) ==> mathint(ghost(qlog)[mathint(k)]) == (mathint(old(s.nextRecv.v)) + mathint(k) - old(ghost(qn))) % 4294967296)
+//@   loop 1:
+//@     modifies s.nextRecv, s.remoteWindowSize
+//@     invariant ghost(qn) >= old(ghost(qn))
+//@     invariant mathint(s.nextRecv.v) == (mathint(old(s.nextRecv.v)) + ghost(qn) - old(ghost(qn))) % 4294967296
+//@     invariant forall(k, 0, 4611686018427387904, old(ghost(qn)) <= mathint(k) && mathint(k) < ghost(qn) ==> mathint(ghost(qlog)[mathint(k)]) == (mathint(old(s.nextRecv.v)) + mathint(k) - old(ghost(qn))) % 4294967296)
